@@ -722,6 +722,29 @@ fn main() {
             println!("{}", serde_json::to_string_pretty(&t.to_json(&name)).unwrap());
         }
         "ubprobe" => std::process::exit(cmd_ubprobe(&world, &args)),
+        "probe" => {
+            // the native run died (crash or abort inside the code under test): no native verdict is
+            // possible; hand the PRNG-free probe batch to the interpreter, which turns memory errors into
+            // reported events. Exit 1 if it reports one, else 2 (no verdict) — never 0.
+            let ws = match args.miri_workspace.clone().or(args.miri_on_demand.clone()) {
+                Some(w) => w,
+                None => {
+                    eprintln!("usage error: probe needs --miri-probe <workspace>");
+                    std::process::exit(2);
+                }
+            };
+            let (res, hit) = miri_probe(&args, &ws, "miri", None, "2");
+            if let Some(path) = &args.evidence {
+                let ev = json!({"property_id": PROPERTY, "tier": "probe-only", "seed": args.seed, "level": "fault_enumeration", "violations": hit as u32,
+                    "coverage": {"evaluations": 0, "distinct_nontrivial": 0, "rule": "the native run died before it could report; only the interpreter probe ran", "samples": [], "exhaustive": false, "interpreter_probe_undefined_behaviour": [res]}});
+                let _ = std::fs::write(path, serde_json::to_string_pretty(&ev).unwrap());
+            }
+            if hit {
+                std::process::exit(1);
+            }
+            eprintln!("harness error: the native run died and the interpreter probe did not pin down why; no verdict");
+            std::process::exit(2);
+        }
         "digests" => {
             exec::CODEC_ONLY.store(args.codec_only, std::sync::atomic::Ordering::Relaxed);
             for (r, d) in digests_of(&world, args.seed, args.runs.unwrap_or(1000), args.workers, args.tier) {
